@@ -384,6 +384,16 @@ impl<T: Config> SyncLayer<T> {
             .map(|(_, cell)| cell)
     }
 
+    /// Verification hook: (frame, checksum) of every saved-state cell, in ring order.
+    #[cfg(feature = "verif-hooks")]
+    pub(crate) fn verif_cells(&self) -> Vec<(Frame, Option<u128>)> {
+        self.saved_states
+            .states
+            .iter()
+            .map(|cell| (cell.frame(), cell.checksum()))
+            .collect()
+    }
+
     /// Returns the latest saved frame
     pub(crate) fn last_saved_frame(&self) -> Frame {
         self.last_saved_frame
